@@ -33,7 +33,8 @@ VARIABLES
     que,                    \* SUBSET Alg
     status,                 \* [Alg -> "initial" | "waiting" | "running"]
     fly,                    \* SUBSET Alg: units in flight, released since the last load (ground truth)
-    old,                    \* SUBSET Alg: units in flight that were released before the last load (abandoned)
+    old,                    \* SUBSET Alg: units in flight abandoned by the load that is under way (farm cleared, graph not rebuilt yet)
+    anc,                    \* SUBSET Alg: units in flight that were released before the current graph was built
     arch,                   \* farm.ARCHIVE
     \* ---- life cycle
     st, tr, prior, bg, prio, wait, slot, sub, subp,
@@ -41,14 +42,13 @@ VARIABLES
     fire,                   \* "none" or the priority under which update_trigger was accepted, with the ground truth at that instant
     nfired, runs, nsub, ncyc
 
-svars == <<todo, doing, hand, que, status, fly, old, arch>>
+svars == <<todo, doing, hand, que, status, fly, old, anc, arch>>
 lvars == <<st, tr, prior, bg, prio, wait, slot, sub, subp>>
 vars == <<svars, lvars, fire, nfired, runs, nsub, ncyc>>
 
 IsActive == st = "running" /\ tr = "active"
 NoWait == [k \in K |-> FALSE]
 \* what the pollers read
-BusyView  == fly # {} \/ old # {}                 \* farm._busy (cleared by load; old units were forgotten then)
 BusyViewNow == fly # {}
 DoingView == \E x \in que : status[x] = "running"  \* schedule.view_doing() is a dict of the running entries of the queue
 QueView   == que # {}
@@ -61,7 +61,7 @@ Fire(src, p) == [p |-> p, src |-> src, executing |-> Executing, pending |-> Pend
 
 Init ==
     /\ todo = [x \in Alg |-> FALSE] /\ doing = [x \in Alg |-> FALSE] /\ hand = [x \in Alg |-> FALSE]
-    /\ que = {} /\ status = [x \in Alg |-> "initial"] /\ fly = {} /\ old = {} /\ arch = FALSE
+    /\ que = {} /\ status = [x \in Alg |-> "initial"] /\ fly = {} /\ old = {} /\ anc = {} /\ arch = FALSE
     /\ st = "running" /\ tr = "active" /\ prior = "none" /\ bg = {} /\ prio = "none" /\ wait = NoWait
     /\ slot = [k \in K |-> "none"] /\ sub = "idle" /\ subp = "none"
     /\ fire = NoFire /\ nfired = 0 /\ runs = 0 /\ nsub = 0 /\ ncyc = 0
@@ -75,7 +75,7 @@ Run(x) ==           \* cmd_run -> organize
     /\ que' = que \cup {x}
     /\ status' = [status EXCEPT ![x] = IF @ = "running" THEN "running" ELSE "waiting"]
     /\ fire' = NoFire
-    /\ UNCHANGED <<doing, hand, fly, old, arch, lvars, nfired, nsub, ncyc>>
+    /\ UNCHANGED <<doing, hand, fly, old, anc, arch, lvars, nfired, nsub, ncyc>>
 
 Blocked(x) == x = B /\ A \in que /\ (todo[A] \/ doing[A] \/ hand[A])
 Avail(x) == x \in que /\ todo[x] /\ ~Blocked(x) /\ ~doing[x] /\ ~hand[x]
@@ -93,40 +93,48 @@ Tick ==             \* farm.dispatch: only while active; archive trigger when id
             /\ hand' = [x \in Alg |-> hand[x] \/ x \in rel]
             /\ status' = [x \in Alg |-> IF x \in rel THEN "running" ELSE status[x]]
             /\ fly' = fly \cup rel
-            /\ UNCHANGED <<que, old, arch, lvars>>
+            /\ UNCHANGED <<que, old, anc, arch, lvars>>
     /\ fire' = NoFire
     /\ UNCHANGED <<nfired, runs, nsub, ncyc>>
+
+(* the effect of Hand._res on the scheduler's bookkeeping *)
+Apply(x, ok, new) ==
+    LET dg == [doing EXCEPT ![x] = FALSE]
+        hd == [hand EXCEPT ![x] = FALSE]
+    IN IF ok
+       THEN LET td == IF new /\ x = A THEN [todo EXCEPT ![B] = TRUE] ELSE todo
+                q0 == IF new /\ x = A THEN que \cup {B} ELSE que
+            IN /\ todo' = td /\ doing' = dg /\ hand' = hd
+               /\ que' = { y \in q0 : ~Idle(td, dg, hd, y) }
+               /\ status' = [y \in Alg |->
+                               IF y = x /\ Idle(td, dg, hd, y) THEN "waiting"
+                               ELSE IF y = B /\ new /\ x = A /\ status[B] # "running" THEN "waiting"
+                               ELSE status[y]]
+               /\ arch' = TRUE
+       ELSE \* failure: purge x and its descendant
+            LET P == IF x = A THEN {A, B} ELSE {B}
+                td == [y \in Alg |-> todo[y] /\ y \notin P]
+                dp == [y \in Alg |-> dg[y] /\ y \notin P]
+            IN /\ todo' = td /\ doing' = dp /\ hand' = hd
+               /\ que' = { y \in que : ~Idle(td, dp, hd, y) }
+               /\ status' = [y \in Alg |-> IF y \in que /\ Idle(td, dp, hd, y) THEN "waiting" ELSE status[y]]
+               /\ arch' = arch
 
 Reply(x, ok, new) ==   \* Hand._res for a unit released since the last load
     /\ x \in fly
     /\ fly' = fly \ {x}
-    /\ LET dg == [doing EXCEPT ![x] = FALSE]
-           hd == [hand EXCEPT ![x] = FALSE]
-       IN IF ok
-          THEN LET td == IF new /\ x = A THEN [todo EXCEPT ![B] = TRUE] ELSE todo
-                   q0 == IF new /\ x = A THEN que \cup {B} ELSE que
-               IN /\ todo' = td /\ doing' = dg /\ hand' = hd
-                  /\ que' = { y \in q0 : ~Idle(td, dg, hd, y) }
-                  /\ status' = [y \in Alg |->
-                                  IF y = x /\ Idle(td, dg, hd, y) THEN "waiting"
-                                  ELSE IF y = B /\ new /\ x = A /\ status[B] # "running" THEN "waiting"
-                                  ELSE status[y]]
-                  /\ arch' = TRUE
-          ELSE \* failure: purge x and its descendant
-               LET P == IF x = A THEN {A, B} ELSE {B}
-                   td == [y \in Alg |-> todo[y] /\ y \notin P]
-                   dp == [y \in Alg |-> dg[y] /\ y \notin P]
-               IN /\ todo' = td /\ doing' = dp /\ hand' = hd
-                  /\ que' = { y \in que : ~Idle(td, dp, hd, y) }
-                  /\ status' = [y \in Alg |-> IF y \in que /\ Idle(td, dp, hd, y) THEN "waiting" ELSE status[y]]
-                  /\ arch' = arch
+    /\ Apply(x, ok, new)
     /\ fire' = NoFire
-    /\ UNCHANGED <<old, lvars, nfired, runs, nsub, ncyc>>
+    /\ UNCHANGED <<old, anc, lvars, nfired, runs, nsub, ncyc>>
 
-OldReply(x) ==      \* a result of work released before the last load is ignored
-    /\ x \in old /\ old' = old \ {x}
+OldReply(x) ==      \* a result of work released before the last load: ignored once the new graph is built; while the
+                    \* load is still under way (farm cleared, graph not yet rebuilt) it is applied to the graph that is about to be discarded
+    /\ \/ /\ x \in old /\ old' = old \ {x} /\ anc' = anc
+          /\ Apply(x, TRUE, FALSE)
+       \/ /\ x \in anc /\ anc' = anc \ {x} /\ old' = old
+          /\ UNCHANGED <<todo, doing, hand, que, status, arch>>
     /\ fire' = NoFire
-    /\ UNCHANGED <<todo, doing, hand, que, status, fly, arch, lvars, nfired, runs, nsub, ncyc>>
+    /\ UNCHANGED <<fly, lvars, nfired, runs, nsub, ncyc>>
 
 (* ---- life cycle ------------------------------------------------------------ *)
 DoUpdate(src, p) ==
@@ -143,7 +151,7 @@ CompleteReload ==   \* reload done -> archiving (-> archive thread, or straight 
             /\ st' = "loading" /\ tr' = "entering" /\ bg' = (bg \ {"reload"}) \cup {"load"}
             /\ prio' = "none" /\ wait' = NoWait /\ nfired' = 0
             /\ old' = old \cup fly /\ fly' = {}
-            /\ UNCHANGED <<todo, doing, hand, que, status, arch>>
+            /\ UNCHANGED <<todo, doing, hand, que, status, anc, arch>>
     /\ fire' = NoFire
     /\ UNCHANGED <<slot, sub, subp, runs, nsub, ncyc>>
 
@@ -152,11 +160,11 @@ CompleteArchive ==
     /\ arch' = FALSE
     /\ IF prior = "running"
        THEN /\ st' = "running" /\ tr' = "active" /\ bg' = bg \ {"archive"}
-            /\ UNCHANGED <<todo, doing, hand, que, status, fly, old, prio, wait, nfired>>
+            /\ UNCHANGED <<todo, doing, hand, que, status, fly, old, anc, prio, wait, nfired>>
        ELSE /\ st' = "loading" /\ tr' = "entering" /\ bg' = (bg \ {"archive"}) \cup {"load"}
             /\ prio' = "none" /\ wait' = NoWait /\ nfired' = 0
             /\ old' = old \cup fly /\ fly' = {}
-            /\ UNCHANGED <<todo, doing, hand, que, status>>
+            /\ UNCHANGED <<todo, doing, hand, que, status, anc>>
     /\ fire' = NoFire
     /\ UNCHANGED <<prior, slot, sub, subp, runs, nsub, ncyc>>
 
@@ -164,9 +172,10 @@ CompleteLoad ==     \* _pipeline: schedule.build -> fresh graph, empty queue; th
     /\ "load" \in bg /\ st = "loading"
     /\ todo' = [x \in Alg |-> FALSE] /\ doing' = [x \in Alg |-> FALSE] /\ hand' = [x \in Alg |-> FALSE]
     /\ que' = {} /\ status' = [x \in Alg |-> "initial"]
+    /\ anc' = anc \cup old /\ old' = {}
     /\ st' = "contemplation" /\ tr' = "entering" /\ bg' = (bg \ {"load"}) \cup {"navel"}
     /\ fire' = NoFire
-    /\ UNCHANGED <<fly, old, arch, prior, prio, wait, slot, sub, subp, nfired, runs, nsub, ncyc>>
+    /\ UNCHANGED <<fly, arch, prior, prio, wait, slot, sub, subp, nfired, runs, nsub, ncyc>>
 
 CompleteNavel ==
     /\ "navel" \in bg /\ st = "contemplation"
@@ -240,6 +249,6 @@ SYS_NoDispatchWhileInactive == [][ (fly' # fly /\ fly \subseteq fly') => IsActiv
 SYS_ViewsTruthful ==          \* what the pollers read never understates the truth
     /\ (Executing => (BusyViewNow /\ DoingView))
     /\ ((Pending \/ Executing) => QueView)
-SYS_IdleMeansIdle == (st # "loading" /\ ~Pending /\ ~Executing /\ old = {}) => ~QueView    \* units abandoned by a load may still be answering
+SYS_IdleMeansIdle == (st # "loading" /\ ~Pending /\ ~Executing) => ~QueView    \* units abandoned by a load may still be answering
 SYS_Rest == bg = {} => (st \in {"running", "gitting"} /\ tr = "active")
 =============================================================================
